@@ -2,6 +2,7 @@ package mon
 
 import (
 	"fmt"
+	"math"
 	"reflect"
 	"regexp"
 	"sort"
@@ -648,6 +649,9 @@ func runC14(c *fw.Ctx) {
 		L(S("a"), S(""), S("b")), L(I(3), S("x"), I(1)), L(), L(N()), L(I(1), F(1), I(2), F(2.5)), L(O(), L(), O("a", I(1)), L(I(1))),
 		L(B(true), I(0), B(false), S("false"), N(), F(0)), L(S(""), S(""), I(0), I(0)),
 		O("a", S(""), "b", S("x"), "c", I(1), "d", N(), "e", L(), "f", O(), "", F(1.5), "g", B(false)), O(),
+		// floats that are no ordinary numbers are of kind float like any other
+		L(F(math.NaN())), L(I(1), F(2.5), F(math.NaN())), L(F(math.Inf(1)), F(math.NaN()), I(2), F(math.Inf(-1)), F(math.Copysign(0, -1))), L(F(math.NaN()), S("x"), F(math.NaN())),
+		O("a", F(math.NaN()), "b", I(1), "c", F(math.Inf(-1))),
 	}
 	c.Cases("pinned", len(pins), true, func(i int, r *rng.R) { c14Case(c, r, pins[i]) })
 	c.Cases("mutating-callbacks", c.N(400, 100000), false, func(i int, r *rng.R) { c14Mutating(c, r) })
@@ -686,6 +690,9 @@ func runC14(c *fw.Ctx) {
 					}
 				case 3:
 					v = F(float64(r.Range(-6, 6)) / 2)
+					if r.Chance(1, 8) {
+						v = F([]float64{math.NaN(), math.Inf(1), math.Inf(-1), math.Copysign(0, -1), math.MaxFloat64, math.SmallestNonzeroFloat64}[r.Intn(6)])
+					}
 				case 4:
 					v = S([]string{"", "a", "b", "0", "true"}[r.Intn(5)])
 				case 5:
